@@ -4,3 +4,6 @@ import AGV.Props.C14
 #print axioms AGV.Props.C14.c14_syntax_error_pos
 #print axioms AGV.Props.C14.c14_step_violated_by_crBug
 #print axioms AGV.Props.C14.c14_pest_violated_by_crBug
+#print axioms AGV.Props.C14.c14_bytes
+#print axioms AGV.Props.C14.c14_step_bytes
+#print axioms AGV.Props.C14.c14_bytes_nonascii_witness
